@@ -477,7 +477,7 @@ impl H {
     fn prefill(&self, s: &mut Sys) -> Result<(), Fail> {
         let ops: Vec<Op> = match &s.cfg {
             Cfg::PubSub { prefill, .. } => (0..*prefill).map(|_| Op::SendCopy(1)).collect(),
-            Cfg::ReqRes { stage, .. } => {
+            Cfg::ReqRes { stage, max_active, loans, .. } => {
                 let mut v = Vec::new();
                 if *stage >= 1 {
                     v.push(Op::ReqSendCopy(1));
@@ -485,8 +485,26 @@ impl H {
                 if *stage >= 2 {
                     v.push(Op::SrvReceive);
                 }
-                if *stage >= 3 {
+                if *stage == 3 {
                     v.push(Op::RespondCopy(0));
+                }
+                // stages 4 and 5: "late answer". The client gives up on its request while the
+                // server still holds the active request and answers through it afterwards; the
+                // answer stays in the response channel of the abandoned request.
+                if *stage >= 4 {
+                    v.push(Op::DropPending(0));
+                    v.push(Op::RespondCopy(0));
+                }
+                // stage 5: the client then cycles through its pool of response channels (FIFO,
+                // max_servers * 2 * max_active_requests_per_client + max_loaned_requests entries,
+                // max_servers = 2 in every configuration of this harness) so that the very next
+                // request is assigned the channel of the abandoned request again.
+                if *stage >= 5 {
+                    let channels = 2 * 2 * *max_active + *loans;
+                    for _ in 0..channels - 1 {
+                        v.push(Op::ReqSendCopy(1));
+                        v.push(Op::DropPending(0));
+                    }
                 }
                 v
             }
@@ -950,6 +968,9 @@ fn configs(tier: Tier) -> Vec<(Cfg, Plan)> {
         rr(Mix::CR, SvcType::Local, (12, 4), false, 1, 1, false, 2, 0);
         rr(Mix::RC, SvcType::Local, (1, 1), true, 1, 1, false, 3, 0);
         rr(Mix::RC, SvcType::Local, (16, 16), false, 2, 2, true, 0, 0);
+        // late answer / channel recycling (C client)
+        rr(Mix::CC, SvcType::Local, (8, 8), false, 1, 1, false, 5, 0);
+        rr(Mix::CR, SvcType::Local, (12, 4), true, 1, 1, false, 4, 0);
     } else {
         let types: [(usize, usize); 4] = [(1, 1), (8, 8), (12, 4), (16, 16)];
         let mut i = 0usize;
@@ -967,6 +988,14 @@ fn configs(tier: Tier) -> Vec<(Cfg, Plan)> {
         rr(Mix::CC, SvcType::Local, (16, 16), false, 2, 2, false, 2, 1);
         rr(Mix::CC, SvcType::Local, (1, 1), true, 1, 2, true, 3, 1);
         rr(Mix::CC, SvcType::Ipc, (8, 8), false, 1, 1, false, 0, 2);
+        // late answer / channel recycling
+        for mix in [Mix::CC, Mix::CR, Mix::RC] {
+            for (slice, max_active, loans) in [(false, 1, 1), (true, 1, 2), (false, 2, 1)] {
+                rr(mix, SvcType::Local, if slice { (12, 4) } else { (8, 8) }, slice, max_active, loans, false, 4, 0);
+                rr(mix, SvcType::Local, if slice { (1, 1) } else { (16, 16) }, slice, max_active, loans, false, 5, 0);
+            }
+        }
+        rr(Mix::CC, SvcType::Ipc, (8, 8), false, 1, 1, false, 5, 1);
     }
     v
 }
